@@ -37,7 +37,7 @@ REQUIRED_COUNTERS = [
     "c15.class.construct", "c15.construct.strided-buffer", "c15.class.alias", "c15.class.getitem1", "c15.class.getitem2",
     "c15.class.setitem1", "c15.class.setitem2", "c15.class.binop", "c15.class.inplace",
     "c15.class.unary", "c15.class.size", "c15.class.query", "c15.class.elementwise", "c15.class.overflow",
-    "c15.class.mutate-result", "c15.construct.from-buffer-with-earlier-export-alive", "c15.self-index.both", "c15.overflow.index2-beyond-int32", "c15.overflow.size-beyond-int32", "c15.overflow.rem-minus-one", "c15.overflow.numbers-only-mul", "c15.overflow.numbers-only-emax",
+    "c15.class.mutate-result", "c15.construct.from-buffer-with-earlier-export-alive", "c15.self-index.both", "c15.overflow.index2-beyond-int32", "c15.overflow.unary-beyond-int32", "c15.overflow.size-beyond-int32", "c15.overflow.rem-minus-one", "c15.overflow.numbers-only-mul", "c15.overflow.numbers-only-emax",
     "c15.index.int", "c15.index.negint", "c15.index.int-oor", "c15.index.slice", "c15.index.list",
     "c15.index.list-neg", "c15.index.list-oor", "c15.index.list-empty", "c15.index.imat", "c15.index.imat-neg",
     "c15.index.imat-oor",
@@ -551,7 +551,7 @@ def run(ctx):
             """small dedicated class: integers that do not fit the matrix's integer type"""
             big = rng.choice(["2**63", "2**64", "(-2**63 - 1)", "2**70", "10**30"])
             cands = [n for n in ls.live() if ls.ref[n].tc == "i" and ls.ref[n].m * ls.ref[n].n > 0]
-            forms = ["construct-number", "construct-list", "construct-tc-d", "numbers-only-elementwise", "rem-minus-one"]
+            forms = ["construct-number", "construct-list", "construct-tc-d", "numbers-only-elementwise", "rem-minus-one", "unary-beyond-int32"]
             anym = [n for n in ls.live() if isinstance(ls.ref[n], Ref) and ls.ref[n].m * ls.ref[n].n > 0]
             if anym or ls.live():
                 forms += ["size-beyond-int32"]
@@ -567,6 +567,13 @@ def run(ctx):
                 src = "%s = matrix([1, %s])" % (t, big)
             elif f == "construct-tc-d":
                 src = "%s = matrix(2**1100, (1,1), 'd')" % t
+            elif f == "unary-beyond-int32":
+                # 'i' entries are 64-bit: abs / negation / transposes of values beyond 32 bits
+                vals = [rng.choice([2**31, -2**31, 2**40 + 3, -(2**40) - 3, 2**32 + 3, -2**33, 5, -7]) for _ in range(rng.randint(1, 4))]
+                ctx.count("c15.overflow.unary-beyond-int32")
+                src = "%s = %s(matrix(%s))" % (t, rng.choice(["abs", "abs", "-", "+"]), vals)
+                do(src, "overflow:unary-beyond-int32")
+                return
             elif f == "rem-minus-one":
                 # the one integer division that overflows in C: -2^63 by -1 (the remainder is 0)
                 ctx.count("c15.overflow.rem-minus-one")
